@@ -100,7 +100,27 @@ static void triple_body(int m, int n, int k, int pa, int pb)
 	CHECK(eq(A + C, s), "operator+", "elementwise_sum");
 	CHECK(eq(A.Minus(C), d), "Minus", "elementwise_difference");
 	CHECK(eq(A - C, d), "operator-", "elementwise_difference");
-	{ Matrix T(A); T += C; CHECK(eq(T, s), "operator+=", "elementwise_sum"); Matrix& r = (T -= C); CHECK(eq(T, a) && &r == &T, "operator-=", "undoes_+="); }
+	{ Matrix T(A); T += C; CHECK(eq(T, s), "operator+=", "elementwise_sum"); auto&& r = (T -= C); CHECK(eq(T, a) && &r == &T, "operator-=", "undoes_+="); }
+	// chained compound assignments act on the left operand; assigning an object to itself, directly or through the result of a compound assignment, keeps it
+	{
+		Rows q2 = s, q4 = s;
+		for(int i = 0; i < m; i++)
+			for(int j = 0; j < n; j++) { q2[i][j] = s[i][j] - c[i][j]; q4[i][j] = ((q2[i][j] - c[i][j]) - c[i][j]); q4[i][j] = (q4[i][j] + c[i][j]) + c[i][j]; }
+		Matrix T(A);
+		(T += C) -= C;
+		CHECK(eq(T, q2), "(T += C) -= C", "chained_compound_assignment");
+		(T -= C) -= C;
+		(T += C) += C;
+		CHECK(eq(T, q4), "(T -= C) -= C; (T += C) += C", "chained_compound_assignment");
+		Matrix S(A);
+		Matrix& alias = S;
+		S = alias;
+		CHECK(eq(S, a), "S = S", "self_assignment");
+		S = (S += C);
+		CHECK(eq(S, s), "S = (S += C)", "self_assignment");
+		S = (S -= C);
+		CHECK(eq(S, q2), "S = (S -= C)", "self_assignment");
+	}
 	{ Matrix T(A); T -= C; CHECK(eq(T, d), "operator-=", "elementwise_difference"); }
 	CHECK(eq(A, a) && eq(C, c), "operands", "unchanged_by_binary_operations");
 	// product
@@ -199,6 +219,26 @@ static void triple_body(int m, int n, int k, int pa, int pb)
 		T -= W;
 		T -= W;
 		CHECK(eqv(T, dv), "Vector -=", "elementwise");
+		{
+			// expected values computed step by step (sums at mixed scales are not undone exactly by the difference)
+			std::vector<double> q1(n), q2(n), q3(n), q4(n);
+			for(int j = 0; j < n; j++) { q1[j] = vn[j] + w[j]; q2[j] = q1[j] - w[j]; q3[j] = q2[j] + w[j]; q4[j] = (q3[j] - w[j]) - w[j]; }
+			Vector Q(Vn);
+			(Q += W) -= W;
+			bool o1 = eqv(Q, q2);
+			auto&& r = (Q += W);
+			bool o2 = &r == &Q && eqv(Q, q3);
+			(Q -= W) -= W;
+			CHECK(o1 && o2 && eqv(Q, q4), "Vector (Q += W) -= W", "chained_compound_assignment");
+			Vector P(Vn);
+			Vector& alias = P;
+			P = alias;
+			bool o3 = eqv(P, vn);
+			P = (P += W);
+			bool o4 = eqv(P, q1);
+			P = (P -= W);
+			CHECK(o3 && o4 && eqv(P, q2), "Vector P = P, P = (P += W)", "self_assignment");
+		}
 		for(double sc : {2.0, -0.5, 4.0, 3.0, -7.0, 0.1, 1.5})
 		{
 			std::vector<double> ms(n), md(n);
@@ -376,6 +416,28 @@ static void predicates(int n, int pat)
 			t[i][j] += bump;
 			CHECK(Matrix(t).Diagonal() == (i == j), "Diagonal", "single_entry_perturbation");
 		}
+	// the same at very small magnitudes (squares of the differences underflow) and with the smallest subnormal number as the only entry
+	if(pat != 7 && pat != 8)
+		for(int e : {-600, -1000})
+			for(int i = 0; i < n; i++)
+				for(int j = 0; j < n; j++)
+				{
+					auto scaled = [&](const Rows& r) { Rows o = r; for(auto& row : o) for(double& v : row) v = std::ldexp(v, e); return o; };
+					Rows t = scaled(sy);
+					CHECK(Matrix(t).Symmetric(), "Symmetric", "true_on_tiny_symmetric");
+					t[i][j] += std::ldexp(0.25, e);
+					CHECK(Matrix(t).Symmetric() == (i == j), "Symmetric", "single_entry_perturbation_at_tiny_magnitude");
+					t = scaled(an);
+					CHECK(Matrix(t).Antisymmetric(), "Antisymmetric", "true_on_tiny_antisymmetric");
+					t[i][j] += std::ldexp(0.25, e);
+					CHECK(!Matrix(t).Antisymmetric(), "Antisymmetric", "single_entry_perturbation_at_tiny_magnitude");
+					t = scaled(di);
+					t[i][j] += std::ldexp(0.25, e);
+					CHECK(Matrix(t).Diagonal() == (i == j), "Diagonal", "single_entry_perturbation_at_tiny_magnitude");
+					Rows z(n, std::vector<double>(n, 0.0));
+					z[i][j] = 4.9406564584124654e-324;
+					CHECK(Matrix(z).Symmetric() == (i == j) && Matrix(z).Diagonal() == (i == j) && !Matrix(z).Antisymmetric(), "predicates", "single_subnormal_entry");
+				}
 	// Norm with an infinite entry is +infinity (matrix and vector alike)
 	{
 		Rows t = g;
